@@ -1,0 +1,240 @@
+//go:build verif
+
+package tls
+
+import (
+	"crypto/md5"
+	"crypto/sha1"
+	"crypto/sha256"
+	"crypto/sha512"
+	"hash"
+)
+
+// Verification hooks for the key-derivation functions of prf.go and
+// key_schedule.go. Add-only; every function calls the unexported
+// implementation with the given arguments and reports a panic as a flag.
+
+// VerifC26Suite describes one entry of the TLS <= 1.2 suite table as the
+// handshake sees it (cipherSuiteByID).
+type VerifC26Suite struct {
+	ID                    uint16
+	KeyLen, MacLen, IVLen int
+	SHA384                bool
+}
+
+// VerifC26Suites lists the suites reachable through cipherSuiteByID (first
+// match per id, as the lookup does) followed by those of cipherSuites.
+func VerifC26Suites() (implemented, standard []VerifC26Suite) {
+	seen := map[uint16]bool{}
+	for _, s := range implementedCipherSuites {
+		if seen[s.id] {
+			continue
+		}
+		seen[s.id] = true
+		c := cipherSuiteByID(s.id)
+		implemented = append(implemented, VerifC26Suite{c.id, c.keyLen, c.macLen, c.ivLen, c.flags&suiteSHA384 != 0})
+	}
+	for _, c := range cipherSuites {
+		standard = append(standard, VerifC26Suite{c.id, c.keyLen, c.macLen, c.ivLen, c.flags&suiteSHA384 != 0})
+	}
+	return
+}
+
+// VerifC26Suite13 describes one TLS 1.3 suite.
+type VerifC26Suite13 struct {
+	ID       uint16
+	KeyLen   int
+	HashSize int
+}
+
+func VerifC26Suites13() (out []VerifC26Suite13) {
+	for _, c := range cipherSuitesTLS13 {
+		out = append(out, VerifC26Suite13{c.id, c.keyLen, c.hash.Size()})
+	}
+	return
+}
+
+func verifC26Hash(alg int) func() hash.Hash {
+	switch alg {
+	case 0:
+		return md5.New
+	case 1:
+		return sha1.New
+	case 2:
+		return sha256.New
+	default:
+		return sha512.New384
+	}
+}
+
+func verifC26Suite(sha384 bool) *cipherSuite {
+	s := &cipherSuite{}
+	if sha384 {
+		s.flags = suiteSHA384
+	}
+	return s
+}
+
+func VerifC26SplitPreMaster(secret []byte) (s1, s2 []byte) {
+	return splitPreMasterSecret(secret)
+}
+
+// VerifC26PHash runs pHash into a fresh n-byte result (alg: 0 MD5, 1 SHA-1, 2 SHA-256, 3 SHA-384).
+func VerifC26PHash(alg int, secret, seed []byte, n int) []byte {
+	out := make([]byte, n)
+	pHash(out, secret, seed, verifC26Hash(alg))
+	return out
+}
+
+func VerifC26PRF(version uint16, sha384 bool, secret, label, seed []byte, n int) (out []byte, panicked bool) {
+	defer func() {
+		if recover() != nil {
+			out, panicked = nil, true
+		}
+	}()
+	out = make([]byte, n)
+	prfForVersion(version, verifC26Suite(sha384))(out, secret, label, seed)
+	return out, false
+}
+
+func VerifC26Master(version uint16, sha384 bool, pms, cr, sr []byte) (out []byte, panicked bool) {
+	defer func() {
+		if recover() != nil {
+			out, panicked = nil, true
+		}
+	}()
+	return masterFromPreMasterSecret(version, verifC26Suite(sha384), pms, cr, sr), false
+}
+
+// VerifC26MasterSuite / VerifC26KeysSuite use the real table entry for suiteID
+// (cipherSuiteByID) and, for the keys, its own lengths, as the handshakes do.
+func VerifC26MasterSuite(version, suiteID uint16, pms, cr, sr []byte) (out []byte, panicked bool) {
+	defer func() {
+		if recover() != nil {
+			out, panicked = nil, true
+		}
+	}()
+	return masterFromPreMasterSecret(version, cipherSuiteByID(suiteID), pms, cr, sr), false
+}
+
+func VerifC26KeysSuite(version, suiteID uint16, master, cr, sr []byte) (out [6][]byte, panicked bool) {
+	defer func() {
+		if recover() != nil {
+			out, panicked = [6][]byte{}, true
+		}
+	}()
+	s := cipherSuiteByID(suiteID)
+	out[0], out[1], out[2], out[3], out[4], out[5] = keysFromMasterSecret(version, s, master, cr, sr, s.macLen, s.keyLen, s.ivLen)
+	return out, false
+}
+
+func VerifC26Keys(version uint16, sha384 bool, master, cr, sr []byte, macLen, keyLen, ivLen int) (out [6][]byte, panicked bool) {
+	defer func() {
+		if recover() != nil {
+			out, panicked = [6][]byte{}, true
+		}
+	}()
+	out[0], out[1], out[2], out[3], out[4], out[5] = keysFromMasterSecret(version, verifC26Suite(sha384), master, cr, sr, macLen, keyLen, ivLen)
+	return out, false
+}
+
+// VerifC26Finished feeds msgs to a new finishedHash one Write per element.
+func VerifC26Finished(version uint16, sha384 bool, master []byte, msgs [][]byte) (sum, client, server []byte, panicked bool) {
+	defer func() {
+		if recover() != nil {
+			sum, client, server, panicked = nil, nil, nil, true
+		}
+	}()
+	h := newFinishedHash(version, verifC26Suite(sha384))
+	for _, m := range msgs {
+		h.Write(m)
+	}
+	return h.Sum(), h.clientSum(master), h.serverSum(master), false
+}
+
+func VerifC26EKM(version uint16, sha384 bool, master, cr, sr []byte, label string, context []byte, n int) (out []byte, err error, panicked bool) {
+	defer func() {
+		if recover() != nil {
+			out, err, panicked = nil, nil, true
+		}
+	}()
+	out, err = ekmFromMasterSecret(version, verifC26Suite(sha384), master, cr, sr)(label, context, n)
+	return out, err, false
+}
+
+// ---- TLS 1.3 ----
+
+func verifC26Hasher(c *cipherSuiteTLS13, msgs [][]byte) hash.Hash {
+	h := c.hash.New()
+	for _, m := range msgs {
+		h.Write(m)
+	}
+	return h
+}
+
+func VerifC26ExpandLabel(suiteID uint16, secret []byte, label string, context []byte, n int) (out []byte, panicked bool) {
+	defer func() {
+		if recover() != nil {
+			out, panicked = nil, true
+		}
+	}()
+	return cipherSuiteTLS13ByID(suiteID).expandLabel(secret, label, context, n), false
+}
+
+// VerifC26DeriveSecret: nilTranscript passes a nil hash.Hash, otherwise a hash fed with msgs.
+func VerifC26DeriveSecret(suiteID uint16, secret []byte, label string, nilTranscript bool, msgs [][]byte) (out []byte, panicked bool) {
+	defer func() {
+		if recover() != nil {
+			out, panicked = nil, true
+		}
+	}()
+	c := cipherSuiteTLS13ByID(suiteID)
+	if nilTranscript {
+		return c.deriveSecret(secret, label, nil), false
+	}
+	return c.deriveSecret(secret, label, verifC26Hasher(c, msgs)), false
+}
+
+func VerifC26Extract(suiteID uint16, newSecret, currentSecret []byte) []byte {
+	return cipherSuiteTLS13ByID(suiteID).extract(newSecret, currentSecret)
+}
+
+func VerifC26TrafficKey(suiteID uint16, secret []byte) (key, iv []byte, panicked bool) {
+	defer func() {
+		if recover() != nil {
+			key, iv, panicked = nil, nil, true
+		}
+	}()
+	key, iv = cipherSuiteTLS13ByID(suiteID).trafficKey(secret)
+	return key, iv, false
+}
+
+func VerifC26NextTrafficSecret(suiteID uint16, secret []byte) (out []byte, panicked bool) {
+	defer func() {
+		if recover() != nil {
+			out, panicked = nil, true
+		}
+	}()
+	return cipherSuiteTLS13ByID(suiteID).nextTrafficSecret(secret), false
+}
+
+func VerifC26Finished13(suiteID uint16, baseKey []byte, msgs [][]byte) (out []byte, panicked bool) {
+	defer func() {
+		if recover() != nil {
+			out, panicked = nil, true
+		}
+	}()
+	c := cipherSuiteTLS13ByID(suiteID)
+	return c.finishedHash(baseKey, verifC26Hasher(c, msgs)), false
+}
+
+func VerifC26Exporter13(suiteID uint16, master []byte, msgs [][]byte, label string, context []byte, n int) (out []byte, panicked bool) {
+	defer func() {
+		if recover() != nil {
+			out, panicked = nil, true
+		}
+	}()
+	c := cipherSuiteTLS13ByID(suiteID)
+	out, _ = c.exportKeyingMaterial(master, verifC26Hasher(c, msgs))(label, context, n)
+	return out, false
+}
